@@ -114,8 +114,17 @@ Section Oracle.
 Variable resp : Type.
 Variable resp_code : resp -> N.
 
+(* [okind] = the body kind of the request a successful read_request returned (None otherwise) *)
+Definition rs_matches_kind (rs' : read_state) (k : body_kind) : bool :=
+  match k, rs' with
+  | BK_None, RS_Head => true
+  | BK_Known n, RS_Body (Some m) _ _ _ => n =? m
+  | BK_Unknown, RS_Body None _ _ _ => true
+  | _, _ => false
+  end.
+
 Definition oracle_c05_step (rs : read_state) (ws : write_state) (o : cop resp) (err : option herr)
-           (rs' : read_state) (ws' : write_state) (delta : bytes) : bool :=
+           (okind : option body_kind) (rs' : read_state) (ws' : write_state) (delta : bytes) : bool :=
   let c := mk_conn rs ws (mk_cin [] (mk_in [] [] false)) [] false in
   match guard_error resp c o with
   | Some e =>
@@ -144,7 +153,15 @@ Definition oracle_c05_step (rs : read_state) (ws : write_state) (o : cop resp) (
           | Some _ => negb (rs_beq rs' RS_Head)             (* a failed body read never re-opens head reading *)
           | None => rs_beq rs' RS_Head || rs_beq rs' RS_Shutdown
           end
-      | OReadRequest => ws_beq ws' WS_Response
+      | OReadRequest =>
+          ws_beq ws' WS_Response &&
+          (* the connection's read state agrees with the body kind of the request handed out: a
+             pending body must be read (or the connection closed) before the next head *)
+          match err, okind with
+          | None, Some k => rs_matches_kind rs' k
+          | None, None => false
+          | Some _, _ => rs_beq rs' RS_Head
+          end
       | OShutdown => ws_beq ws' WS_Shutdown && rs_beq rs' rs && nil_b delta
       end
   end.
